@@ -176,7 +176,7 @@ func init() {
 			if tier == "thorough" {
 				return "all paths of depth <= 2 over every item position with 5 node types; paths of depth 3 whose steps range over the walked properties plus 4 control positions (node types Object/Activity); pointer-to-list form of every single-item position; every list property a window of one shared backing array (3 orders); families added after round 5: DESIGN.md 8.11"
 			}
-			return "paths of depth <= 2 over every item position, 3 node types; chains of depth 4/6/9/20/40/70 along every walked property; lists of 17/33/65 members (carriers with 40 bto and 70 bcc entries, three identities occurring twice) in every walked position; pointer-to-list form of every single-item position; every list property a window of one shared backing array (3 orders); families added after round 5: DESIGN.md 8.11"
+			return "paths of depth <= 2 over every item position, 3 node types; all 13 node types at depth 1 (every position) and at depth 2 below an Object / an Activity (walked positions); chains of depth 4/6/9/20/40/70 along every walked property; lists of 17/33/65 members (carriers with 40 bto and 70 bcc entries, three identities occurring twice) in every walked position; pointer-to-list form of every single-item position; every list property a window of one shared backing array (3 orders); families added after round 5: DESIGN.md 8.11"
 		},
 		DeadlineQuick: 5 * time.Minute,
 		Run:           c11Run,
@@ -299,6 +299,49 @@ func c11Run(c *engine.Ctx) {
 			}
 		}
 		return out
+	}
+	// every vocabulary type as the node (the quick tier's depth-2 paths use three of them): directly, as the second of two list members
+	// and as the only member, at depth 1 in every item position and at depth 2 below an Object / an Activity in the walked positions.
+	// A walk that picks what to do by a type switch treats a collection, a page or a question differently from a plain object.
+	var allNodes []string
+	for i := range universe.Structs {
+		if n := universe.Structs[i].Name; n != "Link" {
+			allNodes = append(allNodes, n)
+		}
+	}
+	leafSteps := func(s *universe.Struct, walkedOnly bool) []c11Step {
+		var out []c11Step
+		for _, f := range s.ItemFields() {
+			if walkedOnly {
+				walked := false
+				for _, w := range c11WalkedTerms(s.Name) {
+					walked = walked || w == f.Term
+				}
+				if !walked {
+					continue
+				}
+			}
+			for _, nt := range allNodes {
+				if f.Kind == universe.KItem {
+					out = append(out, c11Step{field: f, node: nt})
+				}
+				out = append(out, c11Step{field: f, inList: 2, node: nt}, c11Step{field: f, inList: 3, node: nt})
+			}
+		}
+		return out
+	}
+	for _, h := range hosts {
+		for _, s1 := range leafSteps(h, false) {
+			c11Case(c, h, []c11Step{s1})
+		}
+		for _, mid := range []string{"Object", "Activity"} {
+			ms := universe.ByName(mid)
+			for _, s1 := range []c11Step{{field: *h.Field("Tag"), inList: 2, node: mid}, {field: *h.Field("Attachment"), node: mid}} {
+				for _, s2 := range leafSteps(ms, true) {
+					c11Case(c, h, []c11Step{s1, s2})
+				}
+			}
+		}
 	}
 	for _, h := range hosts {
 		c11Case(c, h, nil)
